@@ -124,7 +124,36 @@ func cn(n uint64) string {
 }
 
 // list Z / list N
+// apRuns splits xs into maximal arithmetic progressions (greedy); ok when that is much shorter than the list itself
+func apRuns(xs []int64) ([][3]int64, bool) {
+	if len(xs) < 256 {
+		return nil, false
+	}
+	var runs [][3]int64
+	for i := 0; i < len(xs); {
+		if i+1 >= len(xs) {
+			runs = append(runs, [3]int64{xs[i], 0, 1})
+			break
+		}
+		d := xs[i+1] - xs[i]
+		j := i + 1
+		for j+1 < len(xs) && xs[j+1]-xs[j] == d {
+			j++
+		}
+		runs = append(runs, [3]int64{xs[i], d, int64(j - i + 1)})
+		i = j + 1
+	}
+	return runs, len(runs)*16 < len(xs)
+}
+
 func czs(xs []int64) string {
+	if runs, ok := apRuns(xs); ok {
+		parts := make([]string, len(runs))
+		for i, r := range runs {
+			parts[i] = fmt.Sprintf("ap_z %s %s %d%%uint63", cz(r[0]), cz(r[1]), r[2])
+		}
+		return "(" + strings.Join(parts, " ++ ") + ")%list"
+	}
 	one := true
 	for _, x := range xs {
 		if x < 0 {
@@ -236,6 +265,18 @@ func clabels(l []KV) string {
 func bits(v float64) uint64 { return math.Float64bits(v) }
 
 func csamples(ts []int64, vals []float64) string {
+	if runs, ok := apRuns(ts); ok && len(runs) == 1 {
+		same := true
+		for _, v := range vals {
+			if bits(v) != bits(vals[0]) {
+				same = false
+				break
+			}
+		}
+		if same {
+			return fmt.Sprintf("(smp_ap %s %s %s %d%%uint63)", cz(runs[0][0]), cz(runs[0][1]), cn(bits(vals[0])), runs[0][2])
+		}
+	}
 	out := make([]string, 0, 4*len(ts))
 	for i := range ts {
 		a, b := hilo(uint64(ts[i]))
@@ -330,9 +371,25 @@ func coqBody(c *Case) string {
 		ls := make([]string, len(c.Body.Influx))
 		for i, l := range c.Body.Influx {
 			fs := make([]string, len(l.Fields))
+			msgLine := false
+			for _, f := range l.Fields {
+				if string(f.Name) == "message" {
+					msgLine = true
+				}
+			}
 			for j, f := range l.Fields {
 				v := ""
-				switch f.Kind {
+				kind := f.Kind
+				if msgLine && (kind == "int" || kind == "uint" || kind == "bool") {
+					kind += "-text" // on a message line the field is rendered as text
+				}
+				switch kind {
+				case "int-text":
+					v = "FIntT " + cz(f.I)
+				case "uint-text":
+					v = "FUintT " + cn(uint64(f.I))
+				case "bool-text":
+					v = fmt.Sprintf("FBoolT %v", f.I != 0)
 				case "int":
 					v = "FNum " + cn(bits(float64(f.I)))
 				case "float":
